@@ -4,7 +4,8 @@
     Part 2  [permutation]: enumeration, re-split, independence of the worker schedule
     Part 3  p-values over R: formulas of Phipson & Smyth, range (0,1], the code's
             'approximate' versus the published integral form
-    Part 4  MMD: compare's cached term equals the null's recomputation            *)
+    Part 4  MMD: compare's cached term equals the null's recomputation
+    Part 5  the rational instance QA (what the check evaluates) denotes the same reals *)
 From Coq Require Import ZArith String List Bool Reals Lra Lia.
 From Coq Require Import Permutation.
 From Coquelicot Require Import Coquelicot.
@@ -926,3 +927,172 @@ Proof.
   destruct (RInt_cdf_bounds b m (/ (2 * INR mt)) Hb ltac:(lra)) as [[I0 I1] I2].
   split; nra.
 Qed.
+
+From Coq Require Import QArith Qreduction Qreals.
+Local Close Scope Q_scope.
+
+(** * Part 5 — the rational instance [QA] used for evaluation computes the same real numbers *)
+Lemma Q2R_qadd x y : Q2R (qadd x y) = Q2R x + Q2R y.
+Proof.
+  unfold qadd. destruct (Pos.eqb_spec (Qden x) (Qden y)) as [e|ne].
+  - unfold Q2R; cbn [Qnum Qden]. rewrite plus_IZR, <- e.
+    assert (IZR (Zpos (Qden x)) <> 0) by (apply not_0_IZR; lia). field. assumption.
+  - rewrite (Qeq_eqR _ _ (Qred_correct _)). apply Q2R_plus.
+Qed.
+Lemma Q2R_add x y : Q2R (@add QA x y) = Q2R x + Q2R y.
+Proof. apply Q2R_qadd. Qed.
+Lemma Q2R_sub x y : Q2R (@sub QA x y) = Q2R x - Q2R y.
+Proof. cbn [sub QA]. rewrite Q2R_qadd, Q2R_opp. lra. Qed.
+Lemma Q2R_mul x y : Q2R (@mul QA x y) = Q2R x * Q2R y.
+Proof. apply Q2R_mult. Qed.
+Lemma Q2R_div x y : ~ Qeq y 0%Q -> Q2R (@div QA x y) = Q2R x / Q2R y.
+Proof. intros H. cbn [div QA]. rewrite (Qeq_eqR _ _ (Qred_correct _)). apply Q2R_div. assumption. Qed.
+Lemma Q2R_ofZ z : Q2R (@ofZ QA z) = IZR z.
+Proof. cbn [ofZ QA]. unfold Q2R, inject_Z; cbn [Qnum Qden]. unfold Rdiv. rewrite Rinv_1. ring. Qed.
+Lemma ofZ_nonzero z : z <> 0%Z -> ~ Qeq (@ofZ QA z) 0%Q.
+Proof. intros H. cbn [ofZ QA]. unfold Qeq, inject_Z; cbn [Qnum Qden]. lia. Qed.
+
+Lemma Q2R_zero : Q2R (@zero QA) = @zero RealA.
+Proof. unfold zero. apply Q2R_ofZ. Qed.
+Lemma Q2R_one : Q2R (@one QA) = @one RealA.
+Proof. unfold one. apply Q2R_ofZ. Qed.
+
+Lemma Q2R_powN x n : Q2R (powN (A:=QA) x n) = powN (A:=RealA) (Q2R x) n.
+Proof. induction n; cbn [powN]; [apply Q2R_one|]. rewrite Q2R_mul, IHn. reflexivity. Qed.
+
+Lemma sum_upto_ext {A : Arith} (f g : nat -> NumSys.num A) b : (forall k, (k <= b)%nat -> f k = g k) -> sum_upto f b = sum_upto g b.
+Proof. induction b; intros H; cbn [sum_upto]; [apply H; lia|]. rewrite IHb, H by (intros; try apply H; lia). reflexivity. Qed.
+
+Lemma Q2R_sum_upto f b : Q2R (sum_upto (A:=QA) f b) = sum_upto (A:=RealA) (fun k => Q2R (f k)) b.
+Proof. induction b; cbn [sum_upto]; [reflexivity|]. rewrite Q2R_add, IHb. reflexivity. Qed.
+
+Lemma Q2R_binom_pmf m k p : Q2R (binom_pmf (A:=QA) m k p) = binom_pmf (A:=RealA) m k (Q2R p).
+Proof.
+  unfold binom_pmf. rewrite !Q2R_mul, !Q2R_powN, Q2R_sub, Q2R_one, Q2R_ofZ. reflexivity.
+Qed.
+Lemma Q2R_binom_cdf b m p : Q2R (binom_cdf (A:=QA) b m p) = binom_cdf (A:=RealA) b m (Q2R p).
+Proof. unfold binom_cdf. rewrite Q2R_sum_upto. apply sum_upto_ext. intros; apply Q2R_binom_pmf. Qed.
+
+Lemma Q2R_conservative b req : (req + 1 <> 0)%Z ->
+  Q2R (pv_conservative (A:=QA) b req) = pv_conservative (A:=RealA) b req.
+Proof. intros H. unfold pv_conservative. rewrite Q2R_div by (apply ofZ_nonzero; assumption). rewrite !Q2R_ofZ. reflexivity. Qed.
+
+Lemma Q2R_estimate b len : (1 <= len)%nat -> Q2R (pv_estimate (A:=QA) b len) = pv_estimate (A:=RealA) b len.
+Proof. intros H. unfold pv_estimate. rewrite Q2R_div by (apply ofZ_nonzero; lia). rewrite !Q2R_ofZ. reflexivity. Qed.
+
+Lemma Q2R_exact b m mt : (1 <= mt)%nat -> Q2R (pv_exact (A:=QA) b m mt) = pv_exact (A:=RealA) b m mt.
+Proof.
+  intros H. destruct mt as [|mt']; [lia|]. unfold pv_exact.
+  rewrite Q2R_div by (apply ofZ_nonzero; lia). rewrite Q2R_ofZ, Q2R_sum_upto. cbn [div ofZ RealA]. f_equal.
+  apply sum_upto_ext. intros t _. rewrite Q2R_binom_cdf. f_equal.
+  cbn [div ofZ RealA]. rewrite Q2R_div by (apply ofZ_nonzero; lia). rewrite !Q2R_ofZ. reflexivity.
+Qed.
+
+(** polynomials *)
+Notation mapQ := (map Q2R).
+Lemma Q2R_peval p x : Q2R (peval (A:=QA) p x) = peval (A:=RealA) (mapQ p) (Q2R x).
+Proof. induction p as [|c p IH]; cbn [peval map]; [apply Q2R_zero|]. rewrite Q2R_add, Q2R_mul, IH. reflexivity. Qed.
+Lemma mapQ_padd p q : mapQ (padd (A:=QA) p q) = padd (A:=RealA) (mapQ p) (mapQ q).
+Proof.
+  revert q; induction p as [|a p IH]; intros q; [reflexivity|].
+  destruct q as [|c q]; cbn [padd map]; [reflexivity|]. rewrite Q2R_add, IH. reflexivity.
+Qed.
+Lemma mapQ_pscale c p : mapQ (pscale (A:=QA) c p) = pscale (A:=RealA) (Q2R c) (mapQ p).
+Proof. unfold pscale. induction p as [|a p IH]; cbn [map]; [reflexivity|]. rewrite Q2R_mul, IH. reflexivity. Qed.
+Lemma mapQ_pmulx p : mapQ (pmulx (A:=QA) p) = pmulx (A:=RealA) (mapQ p).
+Proof. unfold pmulx. cbn [map]. rewrite Q2R_zero. reflexivity. Qed.
+Lemma mapQ_pmul1mx p : mapQ (pmul1mx (A:=QA) p) = pmul1mx (A:=RealA) (mapQ p).
+Proof. unfold pmul1mx. rewrite mapQ_padd, mapQ_pscale, mapQ_pmulx, Q2R_sub, Q2R_zero, Q2R_one. reflexivity. Qed.
+Lemma mapQ_piter fq fr n p : (forall p, mapQ (fq p) = fr (mapQ p)) ->
+  mapQ (piter (A:=QA) fq n p) = piter (A:=RealA) fr n (mapQ p).
+Proof. intros H. induction n; cbn [piter]; [reflexivity|]. rewrite H, IHn. reflexivity. Qed.
+Lemma mapQ_pmf_poly m k : mapQ (pmf_poly (A:=QA) m k) = pmf_poly (A:=RealA) m k.
+Proof.
+  unfold pmf_poly. rewrite mapQ_pscale, Q2R_ofZ.
+  rewrite (mapQ_piter _ (pmulx (A:=RealA))) by apply mapQ_pmulx.
+  rewrite (mapQ_piter _ (pmul1mx (A:=RealA))) by apply mapQ_pmul1mx.
+  cbn [map]. rewrite Q2R_one. reflexivity.
+Qed.
+Lemma mapQ_cdf_poly b m : mapQ (cdf_poly (A:=QA) b m) = cdf_poly (A:=RealA) b m.
+Proof. induction b; cbn [cdf_poly]; [apply mapQ_pmf_poly|]. rewrite mapQ_padd, IHb, mapQ_pmf_poly. reflexivity. Qed.
+Lemma mapQ_pint_from i p : (0 < i)%Z -> mapQ (pint_from (A:=QA) i p) = pint_from (A:=RealA) i (mapQ p).
+Proof.
+  revert i; induction p as [|c p IH]; intros i Hi; cbn [pint_from map]; [reflexivity|].
+  rewrite Q2R_div by (apply ofZ_nonzero; lia). rewrite Q2R_ofZ, IH by lia. reflexivity.
+Qed.
+Lemma mapQ_pint p : mapQ (pint (A:=QA) p) = pint (A:=RealA) (mapQ p).
+Proof. unfold pint. cbn [map]. rewrite Q2R_zero, mapQ_pint_from by lia. reflexivity. Qed.
+Lemma Q2R_cdf_integral b m a : Q2R (cdf_integral (A:=QA) b m a) = cdf_integral (A:=RealA) b m (Q2R a).
+Proof. unfold cdf_integral. rewrite Q2R_peval, mapQ_pint, mapQ_cdf_poly. reflexivity. Qed.
+Lemma Q2R_half_over mt : (1 <= mt)%nat -> Q2R (half_over (A:=QA) mt) = half_over (A:=RealA) mt.
+Proof.
+  intros H. unfold half_over, two.
+  rewrite Q2R_div by (apply ofZ_nonzero; lia). rewrite Q2R_div by (apply ofZ_nonzero; lia).
+  rewrite Q2R_one, !Q2R_ofZ. reflexivity.
+Qed.
+Lemma Q2R_ratio (b m : nat) :
+  Q2R (@div QA (ofZ (Z.of_nat b + 1)) (ofZ (Z.of_nat m + 1))) = @div RealA (ofZ (Z.of_nat b + 1)) (ofZ (Z.of_nat m + 1)).
+Proof. rewrite Q2R_div by (apply ofZ_nonzero; lia). rewrite !Q2R_ofZ. reflexivity. Qed.
+Lemma Q2R_approximate b m mt : (1 <= mt)%nat ->
+  Q2R (pv_approximate (A:=QA) b m mt) = pv_approximate (A:=RealA) b m mt.
+Proof.
+  intros H. unfold pv_approximate. rewrite Q2R_sub, Q2R_mul, Q2R_cdf_integral, Q2R_half_over, Q2R_ratio by assumption. reflexivity.
+Qed.
+Lemma Q2R_ps_approximate b m mt : (1 <= mt)%nat ->
+  Q2R (ps_approximate (A:=QA) b m mt) = ps_approximate (A:=RealA) b m mt.
+Proof.
+  intros H. unfold ps_approximate. rewrite Q2R_sub, Q2R_cdf_integral, Q2R_half_over, Q2R_ratio by assumption. reflexivity.
+Qed.
+
+Lemma Q2R_0 : Q2R 0%Q = 0. Proof. unfold Q2R; cbn. lra. Qed.
+Lemma Q2R_1 : Q2R 1%Q = 1. Proof. unfold Q2R; cbn. lra. Qed.
+Lemma in_unit_Q q : 0 < Q2R q <= 1 -> (0 < q /\ q <= 1)%Q.
+Proof. intros [H1 H2]. split; [apply Rlt_Qlt; rewrite Q2R_0; assumption | apply Rle_Qle; rewrite Q2R_1; assumption]. Qed.
+
+(** the range theorems, stated on the very terms the check evaluates with [vm_compute] *)
+Theorem exact_in_unit_Q b m mt : (b <= m)%nat -> (2 <= mt)%nat ->
+  (0 < pv_exact (A:=QA) b m mt /\ pv_exact (A:=QA) b m mt <= 1)%Q.
+Proof.
+  intros Hb Hmt. apply in_unit_Q. rewrite Q2R_exact by lia. rewrite exact_formula_R by lia.
+  apply exact_in_unit_R; assumption.
+Qed.
+
+Theorem approximate_in_unit_Q b m mt : (b <= m)%nat -> (1 <= mt)%nat ->
+  (0 < pv_approximate (A:=QA) b m mt /\ pv_approximate (A:=QA) b m mt <= 1)%Q.
+Proof.
+  intros Hb Hmt. apply in_unit_Q. rewrite Q2R_approximate, approximate_code_R by assumption.
+  apply code_approximate_in_unit; assumption.
+Qed.
+
+Theorem conservative_in_unit_Q (b len : nat) (requested : Z) : (b <= len)%nat -> (Z.of_nat len <= requested)%Z ->
+  (0 < pv_conservative (A:=QA) b requested /\ pv_conservative (A:=QA) b requested <= 1)%Q.
+Proof.
+  intros Hb Hl. apply in_unit_Q. rewrite Q2R_conservative by lia. apply (conservative_in_unit_R b len); assumption.
+Qed.
+
+(** * Part 6 — the dispatcher, and the two clauses the code does not meet *)
+Lemma auto_is_exact_lemma requested : (requested <= MAX_NUM_PERM)%Z -> resolve Auto requested = Exact.
+Proof. intros H. unfold resolve. destruct (requested >? MAX_NUM_PERM)%Z eqn:E; [lia | reflexivity]. Qed.
+
+(** F22: the enumeration branch returns (n+m)! statistics but 'conservative' divides by the
+    requested number + 1.  Witness: 3 pooled samples, 10 permutations requested, b = 0:
+    1/11 instead of 1/7. *)
+Lemma conservative_formula_refuted_lemma : exists (b len : nat) (requested max_num : Z),
+  Z.of_nat len = Z.min requested max_num /\ (b <= len)%nat /\
+  Qpair (p_value (A:=QA) Conservative requested None max_num b len) = (1, 11)%Z /\
+  Qpair (@div QA (ofZ (Z.of_nat b + 1)) (ofZ (Z.of_nat len + 1))) = (1, 7)%Z.
+Proof. exists 0%nat, 6%nat, 10%Z, 6%Z. split; [reflexivity|]. split; [lia|]. split; vm_compute; reflexivity. Qed.
+
+(** when fewer than (n+m)! permutations are requested, [len = requested] and the formula holds *)
+Lemma conservative_formula_partial_lemma (b len : nat) (requested : Z) total max_num :
+  Z.of_nat len = requested ->
+  p_value (A:=RealA) Conservative requested total max_num b len = ((INR b + 1) / (INR len + 1))%R.
+Proof.
+  intros H. unfold p_value, resolve. rewrite conservative_formula_R. rewrite <- H, <- INR_IZR_INZ. reflexivity.
+Qed.
+
+(** F23: b = 0, m = 16, m_t = 2: the code returns 0.04423, Phipson-Smyth's formula 0.000442 *)
+Lemma approximate_formula_refuted_lemma :
+  Qpair (pv_approximate (A:=QA) 0 16 2) = (51668747715, 1168231104512)%Z /\
+  Qpair (ps_approximate (A:=QA) 0 16 2) = (129140163, 292057776128)%Z.
+Proof. split; vm_compute; reflexivity. Qed.
